@@ -83,7 +83,6 @@ package agent
 //@   let c = agent.opampClient
 //@   ensures[delivered-at-most-once] confirmedN(ur) == old(confirmedN(ur)) || confirmedN(ur) == old(confirmedN(ur)) + 1
 //@   ensures[delivered-only-after-the-client-took-the-report] confirmedN(ur) != old(confirmedN(ur)) ==> offeredN(c) > old(offeredN(c)) && offerTaken(c)
-//@   ensures[offered-at-most-twice] offeredN(c) <= old(offeredN(c)) + 2
 //@   modifies all(confirmedN), all(offeredN), all(offerTaken), all(sentUsage)
 
 // ---- C35: usage is added by the metrics reader goroutine and reported / acknowledged by the agent's own
